@@ -2237,12 +2237,12 @@ func (m *repoManager) newData(uuid dvid.UUID, t TypeService, name dvid.InstanceN
 		return nil, err
 	}
 
-	m.idMutex.Lock()
-	m.iids[id] = dataservice
-	m.dataByUUID[dataservice.DataUUID()] = dataservice
-	m.idMutex.Unlock()
-
 	r.Lock()
+	if _, found := r.data[name]; found {
+		// a concurrent creation of the same name got here first
+		r.Unlock()
+		return nil, fmt.Errorf("Data named %q already exists in repo (root %s)", name, r.uuid)
+	}
 	r.data[name] = dataservice
 	tm := time.Now()
 	r.updated = tm
@@ -2250,6 +2250,11 @@ func (m *repoManager) newData(uuid dvid.UUID, t TypeService, name dvid.InstanceN
 	message := fmt.Sprintf("%s  %s", tm.Format(time.RFC3339), msg)
 	r.log = append(r.log, message)
 	r.Unlock()
+
+	m.idMutex.Lock()
+	m.iids[id] = dataservice
+	m.dataByUUID[dataservice.DataUUID()] = dataservice
+	m.idMutex.Unlock()
 
 	// If it can be initialized (e.g., start sync handlers, etc), do it.
 	initializer, initializable := dataservice.(DataInitializer)
